@@ -27,6 +27,7 @@ RULE = ('cases = (a) exhaustive sweep of every reachable binarised time-mask pat
         'distinct = hash of (program, options, mask assignment).')
 RULE += ('  Round 2/3: BatchNorm layers with non-default eps (1e-3, 1e-2, 5e-2); heads made of two classifiers concatenated into the output.')
 RULE += ('  Round 4: second export of the same wrapper after an alive and a pruned channel of every masker traded places; DenseNet-style chains of nested concats.')
+RULE += ("  Round 5: per-axis conv geometry (non-square kernels, unequal stride / dilation / padding, 'same' with even kernels); padding='valid' spelled as a string on causal Conv1d.")
 ASSUMPTIONS = [
     'equality is judged on a batch of 4 random real inputs per case with tolerance 1e-4*(1+max|y|)',
     'time masks are pruned only on causally padded stride-1 Conv1d (the statement\'s scope)',
